@@ -340,8 +340,13 @@ OnStatus(S, m, e) ==
       a15a == Check(a14, "OneSubmitter", has /\ prev.sub # "" /\ e.sub # "", e.sub = prev.sub)
       \* the role is given back only by the process that holds it (a command that was refused the role leaves it alone)
       a15 == Check(a15a, "RoleReleasedByHolder", released /\ ~m.faulty /\ m.holder # 0, e.pid = m.holder)
+      \* C06/C18: a round that ends normally leaves every batch that is still pending or running on the scheduler in the
+      \* recorded HPC ids (a batch that is active and forgotten no longer counts against max-nodes, and nobody waits for its
+      \* results: "never treated as finished")
+      a15b == Check(a15, "ActiveBatchesTracked", released /\ FaultFree(m) /\ ~m.sqlie /\ S.mode = "hpc" /\ ~m.cancelSeen,
+                    \A b \in DOMAIN m.bstate : m.bstate[b] \in {"pending", "running"} => b \in ToSet(e.idb))
       \* C05
-      a16 == Check(a15, "CompleteHasAllResults",
+      a16 == Check(a15b, "CompleteHasAllResults",
                    becameComplete /\ FaultFree(m) /\ ~AnyDry(S) /\ ~m.cancelSeen /\ ~e.canceled /\ Acyclic(S) /\ m.epoch = 0,
                    J \subseteq rows)
       \* ... "has a result" as the user sees it: the summary written before the flag lists every job, none missing (a row
@@ -587,7 +592,7 @@ ClausesOf(c) ==
     [] c = "C05" -> {"QuiescentRoundProgress", "NoIdleLeftover", "CompleteHasAllResults", "SummaryBeforeFlag", "CompleteOnce",
                      "SummaryOnlyBeforeFlag", "NodeRoundAfterBatch", "CompleteSummaryHasAll",
                      "NoSbatchAfterComplete", "CompletesAfterRecovery", "CompletionWorkOnce"}
-    [] c = "C06" -> {"NodesBound", "ProcsBound"}
+    [] c = "C06" -> {"NodesBound", "ProcsBound", "ActiveBatchesTracked"}
     [] c = "C07" -> {"BatchNonEmpty", "BatchJobsKnown", "OneGroup", "BatchSizeOrTime", "BlockedOnlyWithAllBlockers",
                      "HandoverCoversUnfinished", "GroupOptions", "DryRunNoSbatch", "DryRunNoLaunch", "DryRunSame"}
     [] c = "C08" -> {"ProcessedParses", "RowsIntact", "RowsNotDuplicated", "RowsNeverLost", "EachRowReportedOnce",
